@@ -192,10 +192,10 @@ Proof.
   intros H1 H2. eapply ids_ok_map; [apply add_ctes_ids|]. apply ids_ok_app; auto.
 Qed.
 
-Lemma self_join_fix_ok l r' latest c : col_ok c -> col_ok (self_join_fix l r' latest c).
+Lemma self_join_fix_ok l r' oju latest c : col_ok c -> col_ok (self_join_fix l r' oju latest c).
 Proof.
   unfold self_join_fix. intros H. destruct (Nat.eqb _ _); auto. destruct (cju c); auto.
-  destruct (mem_nat _ _); auto. exact I.
+  destruct (mem_nat _ _ || _); auto. exact I.
 Qed.
 
 Lemma Forall_map_ok (f : col -> col) l : (forall c, col_ok c -> col_ok (f c)) -> Forall col_ok l -> Forall col_ok (map f l).
@@ -235,9 +235,9 @@ Proof.
     destruct (ensure_cols g r' (ctx_of l) l [ca; cb]) as [cs1|] eqn:E1; auto.
     assert (H1 : Forall col_ok cs1) by (eapply ensure_cols_ok; eauto).
     rewrite (ensure_cols_agree r r' (ctx_of (join_frame l (a_out a) (c_name jc) [] (f_ok l && f_ok rt))) l
-                               (map (self_join_fix l r1 latest) cs1) Hr);
+                               (map (self_join_fix l r1 (f_ju rt) latest) cs1) Hr);
       [|exact Ha|apply Forall_map_ok; auto; intros c Hc; apply self_join_fix_ok; auto].
-    destruct (ensure_cols g r' _ l (map (self_join_fix l r1 latest) cs1)) as [[|ca' [|cb' [|]]]|]; auto.
+    destruct (ensure_cols g r' _ l (map (self_join_fix l r1 (f_ju rt) latest) cs1)) as [[|ca' [|cb' [|]]]|]; auto.
     apply join_finish_agree; auto.
   - rewrite (ensure_cols_agree r r' (ctx_of l) l (map plain cs) Hr); [|apply Hl|apply plains_ok].
     destruct (ensure_cols g r' (ctx_of l) l (map plain cs)) as [ncs|]; auto.
@@ -257,7 +257,7 @@ Proof.
   destruct (a_last a) as [latest|]; [|discriminate]. cbv zeta in H.
   destruct on as [[[ca cb]|]|cs]; try discriminate.
   - destruct (ensure_cols g r (ctx_of l) l [ca; cb]) as [cs1|]; [|discriminate].
-    destruct (ensure_cols g r _ l (map (self_join_fix l r1 latest) cs1)) as [[|ca' [|cb' [|]]]|]; try discriminate.
+    destruct (ensure_cols g r _ l (map (self_join_fix l r1 (f_ju rt) latest) cs1)) as [[|ca' [|cb' [|]]]|]; try discriminate.
     eapply join_finish_ok; eauto.
   - destruct (ensure_cols g r (ctx_of l) l (map plain cs)) as [ncs|]; [|discriminate].
     destruct (join_pairs _ latest ncs) as [ps|]; [|discriminate].
